@@ -106,7 +106,7 @@ fn nontrivial(p: &Point) -> bool {
 /// Layer 1: the band is the stated function of the two measures, for every configuration.
 fn check_point(p: &Point, st: &mut Stats) -> CheckResult {
     let cfg = Cfg { snapshot_days: p.snapshot_days, snapshot_versions: p.snapshot_versions };
-    let allowed = allowed_urgency(&cfg, p.days.map(|d| (p.since as u64, d)));
+    let allowed = allowed_urgency(&cfg, p.days.map(|d| (p.since as u64, case::observed_age_days(d))));
     match observe(p) {
         Err(e) => Err(Fail::Violation(format!("{}: {e}", describe(p)))),
         Ok(u) => {
@@ -254,6 +254,16 @@ fn grid() -> Vec<Point> {
                 }
             }
             out.push(Point { snapshot_days: sd, snapshot_versions: sv, days: None, since: 0, sqlite: false });
+        }
+    }
+    // snapshots stamped in the future (the clock was stepped back), against every kind of target
+    for &sv in &[0u32, 1, 5, m32 / 3 + 1, m32] {
+        for &sd in &[0i64, 1, 14, m64 / 3 + 1, m64 - 1, m64] {
+            for dd in [-1i64, -2, -3, -400] {
+                for sqlite in [false, true] {
+                    out.push(Point { snapshot_days: sd, snapshot_versions: sv, days: Some(dd), since: (sv / 2).min(3), sqlite });
+                }
+            }
         }
     }
     // snapshot times on calendar landmarks (before 1970, the epoch, 10^8 s, 10^9 s), both backends
